@@ -46,6 +46,9 @@ def run(tier, seed):
         # protobuf message and streaming forms
         b.emit("mproto Q m", "ok"); b.emit("mfromproto p Q", "ok"); same_behaviour("p")
         b.emit("mproto Qs sib", "ok"); b.emit("mfromproto ps Qs", "ok"); b.emit("mfromproto p1 Q", "ok"); same_behaviour("p1"); b.emit("meq ps sib", "1"); b.emit("meq ps m", "0")
+        # the message ToProto hands out belongs to the caller: editing it does not change what the mapping says next time
+        b.emit("mproto Qe m", "ok"); b.emit("mpedit Qe off %s" % f2h(f["off"] + 100.0), "ok"); b.emit("mpedit Qe gamma %s" % f2h(f["gamma"] * 1.5), "ok")
+        b.emit("mproto Qf m", "ok"); b.emit("mpobs Qf", ("same", len(b.lines) + 1)); jq0 = b.emit("mpobs Q")
         b.emit("mstream sb m", "ok"); b.emit("mpunmarshal Q2 sb", "ok"); jq = b.emit("mpobs Q"); b.emit("mpobs Q2", ("same", jq))
         b.emit("mfromproto p2 Q2", "ok"); b.emit("meq m p2", "1")
         b.emit("mpmarshal mb Q", "ok"); b.emit("mpunmarshal Q3 mb", "ok"); b.emit("mpobs Q3", ("same", jq))
